@@ -905,6 +905,35 @@ pub fn mutate_reply(msg: &str, how: &str) -> Vec<u8> {
         let b = body[a..].find(&close)? + a + close.len();
         Some((a, b))
     };
+    // systematic families: cut after the N-th tag, delete the N-th element (positions inside <data>)
+    if let Some((fam, n)) = how.split_once('@') {
+        let n: usize = n.parse().unwrap_or(0);
+        let from = body.find("<data>").map(|k| k + 6).unwrap_or(0);
+        let mut out: Vec<u8> = body.as_bytes().to_vec();
+        match fam {
+            "trunc" => {
+                if let Some((k, _)) = body[from..].match_indices('>').nth(n) {
+                    out.truncate(from + k + 1);
+                }
+            }
+            "del" => {
+                let starts: Vec<usize> = body[from..]
+                    .match_indices('<')
+                    .map(|(k, _)| from + k)
+                    .filter(|k| !body[*k..].starts_with("</") && !body[*k..].starts_with("<!"))
+                    .collect();
+                if let Some(&at) = starts.get(n) {
+                    let mut i = at;
+                    if parse_elem(body.as_bytes(), &mut i).is_some() {
+                        out = [body[..at].as_bytes(), body[i..].as_bytes()].concat();
+                    }
+                }
+            }
+            _ => {}
+        }
+        out.extend_from_slice(EOM.as_bytes());
+        return out;
+    }
     let out: Vec<u8> = match how {
         "trunc-half" => body.as_bytes()[..body.len() / 2].to_vec(),
         "trunc-tag" => {
